@@ -383,6 +383,7 @@ pub fn run_program(program: abra_core::verif::CompiledProgram, opts: &RunOpts) -
         readline_i: 0,
         user_ret_i: vec![0; opts.host.len()],
     };
+    let live_before = crate::alloc_count::live().0;
     let mut rt = match guarded(|| Runtime::new(program)) {
         Ok(rt) => rt,
         Err(p) => {
@@ -520,6 +521,7 @@ pub fn run_program(program: abra_core::verif::CompiledProgram, opts: &RunOpts) -
     out.stderr.insert_str(0, &st.stderr);
     out.host_log = st.host_log;
     out.stats = collect_stats(if poisoned_runtime { None } else { Some(&rt) });
+    out.stats.runtime_live_bytes = crate::alloc_count::live().0 - live_before;
     if poisoned_runtime {
         // heap may be inconsistent: never run destructors over it
         std::mem::forget(rt);
